@@ -127,7 +127,7 @@ def run(rep, tier, seed, deep=False):
         steps = S.collect(S.WRITABLE, n_hist, n_ops, rng)
         trees = S.small_trees()
         ops = S.exhaustive_small_ops()
-        for kind in (["mem", "os"] if quick else ["mem", "os", "sub-mem", "mount-root", "multi", "wrap-mem", "zip-w"]):
+        for kind in (["mem", "os", "sub-mem"] if quick else ["mem", "os", "sub-mem", "sub-os", "mount-root", "multi", "wrap-mem", "zip-w"]):
             steps += S.exhaustive_steps(kind, trees, ops)
         rep.programs = len(set(s.hist_id for s in steps))
         for s, m in S.with_model(drv, steps):
